@@ -129,7 +129,7 @@ class EventDataframeDataReader(AbstractDataframeDataReader):
         # Assert one unique event per patient and group to drop duplicates
         if (
             not (
-                df_event.groupby("ID")
+                df_event.groupby("ID", observed=True)
                 .nunique()[[self.event_time_name, self.event_bool_name]]
                 .eq(1)
             )
@@ -139,7 +139,7 @@ class EventDataframeDataReader(AbstractDataframeDataReader):
             raise LeaspyDataInputError(
                 "There must be only an unique event_time and an unique event_bool per patient"
             )
-        df_event = df_event.groupby("ID", sort=False).first()
+        df_event = df_event.groupby("ID", sort=False, observed=True).first()
 
         # Event must be empty to raise an error
         if len(df_event) == 0:
